@@ -559,9 +559,22 @@ func runFamily(f *plan.StreamFamily) (viols []plan.Violation, cases int64, sampl
 				hasErr = true
 			}
 		}
+		// an "eof" before the end of the data is a truncated input, not a
+		// chunking of this one (shrinking candidates can produce it): only the
+		// no-panic / termination oracles apply then
+		earlyEOF := false
+		sum := 0
+		for _, d := range f.Del {
+			sum += d.N
+			if d.Err == "eof" && sum < n {
+				earlyEOF = true
+			}
+		}
 		got := c.run(f.Del)
 		c.checkCommon(got, f.Del)
-		if hasErr {
+		if earlyEOF {
+			// nothing to compare with
+		} else if hasErr {
 			c.readerErrorRule(got, f.Del)
 		} else {
 			c.compareRef(got, f.Del, -1)
@@ -590,13 +603,19 @@ func runFamily(f *plan.StreamFamily) (viols []plan.Violation, cases int64, sampl
 		// large documents: piece sizes cycle through Cuts until the end of the
 		// input (the stream buffer is grown and refilled many times)
 		var del []plan.Deliver
-		for pos, k := 0, 0; pos < n && len(f.Cuts) > 0 && len(del) < 1<<16; k++ {
+		pos := 0
+		for k := 0; pos < n && len(f.Cuts) > 0 && len(del) < 1<<16; k++ {
 			sz := f.Cuts[k%len(f.Cuts)]
 			if sz < 1 {
 				sz = 1
 			}
 			del = append(del, plan.Deliver{N: sz})
 			pos += sz
+		}
+		if pos < n {
+			// (list capped: the rest in one piece, so that the EOF attached to the
+			// last delivery below really is the end of the input)
+			del = append(del, plan.Deliver{N: n - pos})
 		}
 		got := c.run(del)
 		if os.Getenv("VERIF_DEBUG_CHUNKS") != "" {
